@@ -217,6 +217,36 @@ func runC02Preexisting(rc *Recorder, dir string, rng *rand.Rand) error {
 	return nil
 }
 
+// runC02ShrinkSnapshot: snapshots and compactions taken while a shrink of the database exists only
+// in the WAL (grow, checkpoint, delete + VACUUM, sync, Snapshot / Compact before any checkpoint) and
+// after it was checkpointed; every TXID must restore identically through the snapshot and through
+// the level-0 chain.
+func runC02ShrinkSnapshot(rc *Recorder, dir string, rng *rand.Rand) error {
+	cfg := Config{PageSize: []int{512, 1024, 4096}[rng.Intn(3)], AutoVacuum: rng.Intn(3), MinCheckpointPageN: 100000}
+	w, err := newWorld(dir, cfg, rng)
+	if err != nil {
+		return err
+	}
+	defer func() { w.closeReader(); w.app.Close() }()
+	w.ldb = w.newLitestream()
+	if err := w.ldb.Open(); err != nil {
+		return err
+	}
+	w.trace = append(w.trace, "C02 shrink/snapshot:")
+	script := []string{"S", "W", "W", "W", "W", "W", "W", "SW", "CK-TRUNCATE", "S", "D", "V", "S", "SNAP", "SW", "CMP", "W", "S", "SNAP",
+		"CK-PASSIVE", "D", "V", "SNAP", "S", "SNAP", "CMP", "SW", "W", "W", "CK-RESTART", "D", "S", "SNAP", "V", "S", "SNAP", "SW"}
+	for _, op := range script {
+		if rng.Intn(6) == 0 {
+			w.step(rc, "W")
+		}
+		w.step(rc, op)
+	}
+	w.everyTXIDOracle(rc, false)
+	w.closeLitestream(rc)
+	rc.cw.Classes[fmt.Sprintf("c02-shrink-snapshot ps=%d av=%d", cfg.PageSize, cfg.AutoVacuum)]++
+	return nil
+}
+
 // runC02Injected: the deterministic counterpart of runC02 — no writer goroutine; version-stamped
 // application transactions are committed between litestream operations and, through the logger
 // hook, at the n-th log record INSIDE them (between the steps of the sync / checkpoint / snapshot
@@ -351,8 +381,13 @@ func (w *World) everyTXIDOracle(rc *Recorder, logical bool) {
 				}
 			}
 			os.RemoveAll(no9)
+			if len(ia) != len(ib) {
+				culprit += ":size-differs"
+			} else {
+				culprit += ":same-size"
+			}
 			rc.violate("C02/txid-state-depends-on-plan:"+culprit, fmt.Sprintf("TXID %d restored with all levels differs from the level-0 chain on pages %v (a mixture of commits); without the level-9 files the restore %s", t, trunc(d, 12),
-				map[string]string{"level9-snapshot-content-differs-from-its-position": "equals the level-0 chain", "compacted-file-differs-from-l0-chain": "still differs", "unattributed": "could not be evaluated"}[culprit])+w.l0Summary(), w)
+				map[string]string{"level9": "equals the level-0 chain", "compact": "still differs", "unattri": "could not be evaluated"}[culprit[:7]])+w.l0Summary(), w)
 			return
 		}
 		if logical {
